@@ -56,7 +56,21 @@ var (
 	hevcVps = ref.WriteHevcVps(0, hevcPtl)
 	hevcSps = ref.WriteHevcSps(ref.HevcSps{Ptl: hevcPtl, ChromaFormat: 1, Width: 320, Height: 240})
 	hevcPps = []byte{0x44, 0x01, 0xc1, 0x72, 0xb4, 0x62, 0x40}
+	// a second set of parameter sets (another picture size / level), sent in-band mid-stream
+	avcSps2  = ref.WriteAvcSps(ref.AvcSps{Profile: 100, Level: 40, ChromaFormat: 1, PocType: 0, Log2MaxPocLsbM4: 2, MaxNumRefFrames: 3, WidthMbsM1: 39, HeightMapUnitsM1: 29, FrameMbsOnly: true, Direct8x8: true})
+	avcPps2  = []byte{0x68, 0xee, 0x3c, 0xb0}
+	hevcPtl2 = ref.HevcPtl{ProfileIdc: 1, Level: 120, Compat: 0x60000000, Constraint: 0x900000000000}
+	hevcVps2 = ref.WriteHevcVps(0, hevcPtl2)
+	hevcSps2 = ref.WriteHevcSps(ref.HevcSps{Ptl: hevcPtl2, ChromaFormat: 1, Width: 640, Height: 480})
+	hevcPps2 = []byte{0x44, 0x01, 0xc0, 0xf7, 0xc0, 0xcc, 0x90}
 )
+
+func paramSets2(v string) [][]byte {
+	if v == "avc" {
+		return [][]byte{avcSps2, avcPps2}
+	}
+	return [][]byte{hevcVps2, hevcSps2, hevcPps2}
+}
 
 func body(n, salt int) []byte {
 	b := make([]byte, n)
@@ -153,6 +167,10 @@ func build(sc scenario) []frame {
 		case "K":
 			if v != "" {
 				addV(true, [][]byte{nal(v, idr, 30, salt)})
+			}
+		case "Kp2": // a key frame that brings NEW parameter sets in-band (resolution switch)
+			if v != "" {
+				addV(true, append(append([][]byte{}, paramSets2(v)...), nal(v, idr, 44, salt)))
 			}
 		case "Kaud":
 			if v != "" {
@@ -649,6 +667,38 @@ func run(sc scenario) (res []result, compared int, infra error) {
 				}
 			}
 		}
+		// every sequence header carries one coherent generation of parameter sets: all of the first or all
+		// of the second, never a mixture; and the second generation is announced once it has been sent
+		sentSecond := false
+		for _, f := range pubV {
+			if !f.closing && len(f.nals) > 1 && bytes.Equal(f.nals[0], paramSets2(v)[0]) {
+				sentSecond = true
+			}
+		}
+		sawSecond := false
+		for i, h := range vsh {
+			n1, n2 := 0, 0
+			for _, ps := range paramSets(v) {
+				if bytes.Contains(h, ps) {
+					n1++
+				}
+			}
+			for _, ps := range paramSets2(v) {
+				if bytes.Contains(h, ps) {
+					n2++
+				}
+			}
+			if !((n1 == len(paramSets(v)) && n2 == 0) || (n2 == len(paramSets2(v)) && n1 == 0)) {
+				add("video-seq-header-mixed", "sequence header #%d carries %d of the first and %d of the second generation of parameter sets", i, n1, n2)
+				break
+			}
+			if n2 > 0 {
+				sawSecond = true
+			}
+		}
+		if sentSecond && !sawSecond && len(gv) > 0 {
+			add("video-seq-header-stale", "new parameter sets were sent in-band with a key frame but no sequence header announces them")
+		}
 		var want []gotNal
 		mustV := 0
 		for _, f := range pubV {
@@ -805,7 +855,7 @@ func main() {
 		rate int
 	}
 	var cases []scenario
-	vShapes := []string{"K", "Kaud", "Kbig", "K2", "Psk", "P", "P1", "Pmid", "Ps"}
+	vShapes := []string{"K", "Kaud", "Kbig", "K2", "Kp2", "Psk", "P", "P1", "Pmid", "Ps"}
 	aShapes := []string{"A", "A1", "A3", "A50"}
 	for _, src := range []string{"rtsp", "ps", "cust-annexb4", "cust-annexb3", "cust-avcc"} {
 		codecs := []cd{{"avc", "aac", 44100}, {"hevc", "aac", 48000}, {"avc", "pcma", 8000}, {"avc", "opus", 48000}, {"avc", "", 0}, {"", "aac", 44100}, {"", "aac", 8000}, {"", "aac", 96000}, {"", "aac", 16000}, {"hevc", "", 0}}
